@@ -1,0 +1,164 @@
+//! Wrappers around crate-private pure functions.
+
+use std::{cmp::Ordering, num::NonZeroU64, time::Duration};
+
+use crate::{
+    benchmark::BenchOptions,
+    config::{
+        filter::{Filter, FilterSet},
+        SortingAttr,
+    },
+    counter::{AnyCounter, BytesFormat, KnownCounterKind},
+    time::{FineDuration, Timer, TscTimestamp},
+};
+
+/// `TscTimestamp::duration_since` in picoseconds.
+pub fn tsc_duration_since(later: u64, earlier: u64, frequency: u64) -> u128 {
+    TscTimestamp { value: later }
+        .duration_since(
+            TscTimestamp { value: earlier },
+            NonZeroU64::new(frequency).expect("frequency must be non-zero"),
+        )
+        .picos
+}
+
+/// `FineDuration::from(Duration)` in picoseconds.
+pub fn fine_from_duration(duration: Duration) -> u128 {
+    FineDuration::from(duration).picos
+}
+
+/// Runs the real precision measurement of a TSC timer (uncached).
+///
+/// With a reader installed through [`super::clock::set_reader`] the clock is
+/// the scripted one.
+pub fn measure_tsc_precision(frequency: u64) -> u128 {
+    Timer::Tsc { frequency: NonZeroU64::new(frequency).unwrap() }
+        .verif_measure_precision()
+        .picos
+}
+
+/// `Display` of `FineDuration` with optional width and precision.
+pub fn fmt_duration(
+    picos: u128,
+    precision: Option<usize>,
+    width: Option<usize>,
+) -> String {
+    let d = FineDuration { picos };
+    match (precision, width) {
+        (None, None) => format!("{d}"),
+        (Some(p), None) => format!("{d:.p$}"),
+        (None, Some(w)) => format!("{d:w$}"),
+        (Some(p), Some(w)) => format!("{d:w$.p$}"),
+    }
+}
+
+/// `util::fmt::format_f64`.
+pub fn fmt_f64(value: f64, sig_figs: usize) -> String {
+    crate::util::fmt::format_f64(value, sig_figs)
+}
+
+/// `util::fmt::format_bytes`.
+pub fn fmt_bytes(value: f64, sig_figs: usize, binary: bool) -> String {
+    crate::util::fmt::format_bytes(value, sig_figs, bytes_format(binary))
+}
+
+/// `AnyCounter::display_throughput(..).to_string()`.
+///
+/// `kind` indexes `KnownCounterKind::ALL` (bytes, chars, cycles, items).
+pub fn fmt_throughput(
+    kind: usize,
+    count: u64,
+    picos: u128,
+    binary: bool,
+) -> String {
+    AnyCounter::known(KnownCounterKind::ALL[kind], count as _)
+        .display_throughput(FineDuration { picos }, bytes_format(binary))
+        .to_string()
+}
+
+pub(crate) fn bytes_format(binary: bool) -> BytesFormat {
+    if binary {
+        BytesFormat::Binary
+    } else {
+        BytesFormat::Decimal
+    }
+}
+
+/// `util::sort::natural_cmp`.
+pub fn natural_cmp(a: &str, b: &str) -> Ordering {
+    crate::util::sort::natural_cmp(a, b)
+}
+
+pub(crate) fn sorting_attr(attr: u8) -> SortingAttr {
+    match attr {
+        0 => SortingAttr::Kind,
+        1 => SortingAttr::Name,
+        _ => SortingAttr::Location,
+    }
+}
+
+/// `SortingAttr::cmp_bench_arg_names` on two elements of one names slice.
+///
+/// `attr`: 0 = kind, 1 = name, 2 = location.
+pub fn cmp_arg_names(attr: u8, names: &[&str], i: usize, j: usize) -> Ordering {
+    sorting_attr(attr).cmp_bench_arg_names(&names[i], &names[j])
+}
+
+/// Sorts argument names exactly like `EntryTree::sort_by_attr` sorts the
+/// arguments of a leaf, and returns the resulting order as indices into
+/// `names`.
+pub fn sort_arg_names(attr: u8, reverse: bool, names: &[&str]) -> Vec<usize> {
+    let attr = sorting_attr(attr);
+    let mut refs: Vec<&&str> = names.iter().collect();
+    refs.sort_by(|&a, &b| {
+        let ordering = attr.cmp_bench_arg_names(a, b);
+        if reverse {
+            ordering.reverse()
+        } else {
+            ordering
+        }
+    });
+    refs.into_iter()
+        .map(|r| crate::util::slice_ptr_index(names, r))
+        .collect()
+}
+
+/// A filter specification: `(inclusive, exact, pattern)`.
+pub type FilterSpec = (bool, bool, String);
+
+pub(crate) fn filter_set(specs: &[FilterSpec]) -> Result<FilterSet, String> {
+    let mut set = FilterSet::default();
+    for (inclusive, exact, pattern) in specs {
+        let filter = if *exact {
+            Filter::Exact(pattern.clone())
+        } else {
+            Filter::Regex(
+                regex::Regex::new(pattern).map_err(|e| e.to_string())?,
+            )
+        };
+        if *inclusive {
+            set.include(filter);
+        } else {
+            set.exclude(filter);
+        }
+    }
+    Ok(set)
+}
+
+/// Builds a `FilterSet` by inserting `specs` in order and evaluates
+/// `FilterSet::is_match` on every path.
+pub fn filter_is_match(
+    specs: &[FilterSpec],
+    paths: &[&str],
+) -> Result<Vec<bool>, String> {
+    let set = filter_set(specs)?;
+    Ok(paths.iter().map(|p| set.is_match(p)).collect())
+}
+
+/// `child.overwrite(parent)`.
+pub fn overwrite_options<'a>(
+    child: &'a BenchOptions<'a>,
+    parent: &'a BenchOptions<'a>,
+) -> BenchOptions<'a> {
+    child.overwrite(parent)
+}
